@@ -352,14 +352,32 @@ class Lower:
     def e_IfExp(self, n):
         return ('if', self.e(n.test), self.e(n.body), self.e(n.orelse))
 
+    def _display(self, n, kind):
+        """a display with starred elements is the concatenation of its parts ([a, *xs, b] = [a] + list(xs) + [b])"""
+        if not any(isinstance(x, ast.Starred) for x in n.elts):
+            return (kind, tuple(self.e(x) for x in n.elts))
+        parts, run = [], []
+        for x in n.elts:
+            if isinstance(x, ast.Starred):
+                if run:
+                    parts.append(('list', tuple(run)))
+                    run = []
+                parts.append(self.e(x.value))
+            else:
+                run.append(self.e(x))
+        if run:
+            parts.append(('list', tuple(run)))
+        seq = ('concat', tuple(parts))
+        return seq if kind == 'list' else call(G(kind), [seq])
+
     def e_Tuple(self, n):
-        return ('tuple', tuple(self.e(x) for x in n.elts))
+        return self._display(n, 'tuple')
 
     def e_List(self, n):
-        return ('list', tuple(self.e(x) for x in n.elts))
+        return self._display(n, 'list')
 
     def e_Set(self, n):
-        return ('set', tuple(self.e(x) for x in n.elts))
+        return self._display(n, 'set')
 
     def e_Dict(self, n):
         items = []
@@ -410,6 +428,11 @@ class Lower:
         return ('star', self.e(n.value))
 
     def e_NamedExpr(self, n):
+        # (name := value): the name is bound from here on, the expression is the value
+        val = self.e(n.value)
+        if isinstance(n.target, ast.Name):
+            self.env[n.target.id] = val
+            return val
         return ('opaque', 'walrus')
 
     def _comp(self, n, elt_fn, wrap):
@@ -880,6 +903,30 @@ class FuncLower:
                         bl.env[nm] = ('pretry', tm)
                 body = self.block(list(st.body) + list(st.orelse) + [_Leave('t', assigned)] + list(st.finalbody) + rest, bl, eff)
                 return ('try', body, tuple(handlers))
+            if isinstance(st, ast.Match):
+                subj = lw.e(st.subject)
+
+                def pat(p_):
+                    if isinstance(p_, ast.MatchValue):
+                        return ('cmp', 'Eq', subj, lw.e(p_.value))
+                    if isinstance(p_, ast.MatchSingleton):
+                        return ('cmp', 'Is', subj, C(p_.value))
+                    if isinstance(p_, ast.MatchOr):
+                        ps = [pat(x) for x in p_.patterns]
+                        return None if any(x is None for x in ps) else ('or', tuple(ps))
+                    if isinstance(p_, ast.MatchAs) and p_.pattern is None and p_.name is None:
+                        return C(True)
+                    return None
+                conds = [pat(c.pattern) for c in st.cases]
+                if all(c is not None for c in conds):
+                    def chain(i):
+                        if i == len(st.cases):
+                            return self.block(rest, lw.clone(), eff)
+                        c = conds[i]
+                        if st.cases[i].guard is not None:
+                            c = ('and', (c, lw.e(st.cases[i].guard)))
+                        return ('if', c, self.block(list(st.cases[i].body) + rest, lw.clone(), eff), chain(i + 1))
+                    return chain(0)
             if isinstance(st, (ast.For, ast.While)):
                 return self.loop(st, rest, lw, eff)
             if isinstance(st, ast.Break):
@@ -1396,6 +1443,9 @@ def norm(t):
         return t
     if k == 'binop':
         op, a, b = t[1], t[2], t[3]
+        # d1 | d2 on dicts is {**d1, **d2}
+        if op == 'BitOr' and (a[0] == 'dict' or b[0] == 'dict'):
+            return norm(('dict', (('dstar', a), ('dstar', b))))
         if a[0] == 'const' and b[0] == 'const' and isinstance(a[1], (int, float)) and isinstance(b[1], (int, float)):
             try:
                 r = {'Add': lambda: a[1] + b[1], 'Sub': lambda: a[1] - b[1], 'Mult': lambda: a[1] * b[1]}.get(op)
@@ -1933,11 +1983,22 @@ def _assume(t, cond, value):
         return t
     neg = [(_negate_bool(c), not v) for c, v in facts if c[0] in ('cmp', 'ge0') or (c[0] == 'not' and c[1][0] in ('cmp', 'ge0', 'not', 'and', 'or'))]
     known = dict(facts + neg)
+    # e == c (a constant) decides e == c' for every other constant c'
+    equals = {}
+    for c, v in list(known.items()):
+        if v and c[0] == 'cmp' and c[1] == 'Eq' and (c[2][0] == 'const') != (c[3][0] == 'const'):
+            e_, k_ = (c[3], c[2]) if c[2][0] == 'const' else (c[2], c[3])
+            if isinstance(k_[1], (int, str)) and not isinstance(k_[1], bool):
+                equals[e_] = k_[1]
     present = [(c[2], c[3]) for c, v in known.items() if c[0] == 'cmp' and ((c[1] == 'In' and v) or (c[1] == 'NotIn' and not v))] + evaluated
 
     def f(x):
         if x in known and x[0] != 'const':
             return C(known[x])
+        if equals and x[0] == 'cmp' and x[1] in ('Eq', 'NotEq') and (x[2][0] == 'const') != (x[3][0] == 'const'):
+            e_, k_ = (x[3], x[2]) if x[2][0] == 'const' else (x[2], x[3])
+            if e_ in equals and isinstance(k_[1], (int, str)) and not isinstance(k_[1], bool) and type(k_[1]) is type(equals[e_]):
+                return C((equals[e_] == k_[1]) == (x[1] == 'Eq'))
         if x[0] == 'call' and x[1][0] == 'attr' and x[1][2] == 'get' and x[2] and not x[3]:
             if (x[2][0], x[1][1]) in present:
                 return ('sub', x[1][1], x[2][0])
@@ -1952,7 +2013,8 @@ def _assume(t, cond, value):
         if x[0] == 'if' and x[1][0] == 'const':
             return x[2] if x[1][1] else x[3]
         return None
-    if not any(y in known or (y[0] == 'call' and y[1][0] == 'attr' and y[1][2] == 'get') for y in walk(t)):
+    if not any(y in known or (y[0] == 'call' and y[1][0] == 'attr' and y[1][2] == 'get') or
+               (equals and y[0] == 'cmp' and y[1] in ('Eq', 'NotEq')) for y in walk(t)):
         return t
     return replace(t, f)
 
